@@ -32,13 +32,56 @@ def handleEv (op : String) (a : Json) : Except String Json := do
     let gs ← (← fldArr out "groups").mapM getNatList
     return boolJ (holdsEv ev A gs (← getPairs (← fld out "calls")))
 
+def getTag (j : Json) : Except String Tag := do
+  match ← getNatList j with
+  | [u, c] => return (u, c)
+  | _ => .error "expected [uuid number, content key]"
+
+def tagJ (t : Tag) : Json := natsJ [t.1, t.2]
+
+def getStep (j : Json) : Except String HStep := do
+  if let some e := fldOpt j "edit" then
+    match ← getNatList e with
+    | [o, c] => return .edit o c
+    | _ => .error "edit: expected [object, content]"
+  else if let some p := fldOpt j "param" then return .setParam (← p.getNat?)
+  else return .call (← getNatList (← fld j "call"))
+
+/-- histories: `R` is one 0/1 matrix on content keys per parameter value of the callable -/
+def handleHist (op : String) (a : Json) : Except String Json := do
+  let tabs ← (← fldArr a "R").mapM fun m => do (← getArr m).mapM getNatList
+  let t : Array (Array (Array Nat)) := (tabs.map fun m => (m.map List.toArray).toArray).toArray
+  let R : Nat → Nat → Nat → Bool := fun p x y => (((t.getD p #[]).getD x #[]).getD y 0) != 0
+  let uu ← getNatList (← fld a "uuid")
+  let w : World := ⟨← getNatList (← fld a "content0"), ← fldNat a "param0"⟩
+  let steps ← (← fldArr a "steps").mapM getStep
+  match op with
+  | "history" =>
+    return arrJ ((callWorlds w steps).map fun c =>
+      Json.mkObj [("groups", arrJ ((callOut R uu c.1 c.2).map fun g => arrJ (g.map tagJ))),
+                  ("calls", arrJ ((callsTagged (tagsOf uu c.1 c.2)).map fun q => arrJ [tagJ q.1, tagJ q.2]))])
+  | _ =>
+    let outs ← (← fldArr a "outs").mapM fun o => do
+      let gs ← (← fldArr o "groups").mapM fun g => do (← getArr g).mapM getTag
+      let cs ← (← fldArr o "calls").mapM fun q => do
+        match ← getArr q with
+        | [x, y] => return (← getTag x, ← getTag y)
+        | _ => .error "expected a pair of tags"
+      return (gs, cs)
+    return Json.mkObj [("calls", natJ (callWorlds w steps).length),
+                       ("verdicts", arrJ ((checkHist R uu w steps outs).map boolJ))]
+
 def handle (op : String) (a : Json) : Except String Json := do
   if op == "group_ev" || op == "holds_ev" then return ← handleEv op a
+  if op == "history" || op == "check_history" then return ← handleHist op a
   let n ← fldNat a "n"
   let adj ← getAdj (← fld a "adj")
   match op with
   | "group" =>
     return valJ (Json.mkObj [("groups", groupsJ (group n adj)), ("calls", pairsJ (pairs n))])
+  | "group_only" =>
+    -- large inputs: the groups alone (the calls are `pairs n`, not sent back)
+    return valJ (Json.mkObj [("groups", groupsJ (group n adj))])
   | "group_loop" =>
     -- the final loop of the code, literally (equal to `group` by theorem C13_loop)
     return valJ (groupsJ (groupLoop (labelAt (labelList n adj)) n))
@@ -55,9 +98,14 @@ def handle (op : String) (a : Json) : Except String Json := do
     let marr : Array (Array Int) := (rows.map List.toArray).toArray
     let m : Nat → Nat → Bool := fun x y => ((marr.getD x #[]).getD y 0) != 0
     let loop := groupLoop (fun x => labs.getD x 0) n
-    -- `dense n adj x y = (coo n adj).count (x, y)` by definition; the coordinate list is computed once
+    -- `dense n adj x y = (coo n adj).count (x, y)` by definition; the coordinate list is computed once and
+    -- split by row first (`GroupingLemmas.dense_row`: counting in the row's sub-list gives the same number)
     let c := coo n adj
-    let d : Nat → Nat → Nat := fun x y => c.count (x, y)
+    let byRow : Array (List (Nat × Nat)) := (Array.range n).map fun x => c.filter fun e => e.1 == x
+    let dm : Array (Array Nat) := (Array.range n).map fun x =>
+      let r := byRow.getD x []
+      (Array.range n).map fun y => r.count (x, y)
+    let d : Nat → Nat → Nat := fun x y => (dm.getD x #[]).getD y 0
     let drows := (List.range n).map fun x => (List.range n).map fun y => Int.ofNat (d x y)
     return Json.mkObj [
       ("matrix", boolJ (rows == drows)),
